@@ -1102,7 +1102,23 @@ def check_C13(tier_, sd, consts_ok, consts_detail):
         if len(violations) < 5:
             violations.append({"found": True, "replay": {"property": "C13", "what": "-N -n / temp file under -n wrong on the binary",
                                "b_after_N_n": short(ses[6][1].get("b.txt")), "b_after_N": short(ses[7][1].get("b.txt")), "t.tmp": short(ses[3][1].get("t.tmp"))}})
-    cov = {"evaluations": 2 * n + 2 * len(tl) + len(hist) + len(ses) + 3 * len(depp), "distinct_nontrivial": len(nontriv), "needed_history_cases": len(hist), "dependency_reach_runs": 3 * len(depp), "cli_flag_steps_ok": cli_ok,
+    # the option is independent of every other build flag on the binary (seed C13-8: -n was dropped whenever -s was given):
+    # for each combination of the other flags the build with -n is the build without it minus one final line ending,
+    # and verify with the same flags agrees with the build it follows
+    fsrc = {"a.txt.txtpp": "line1\n-TXTPP#run echo hi\nlast line\n"}
+    combos = [[], ["-s", "sh -c"], ["--shell", "sh -c"], ["-j", "2"], ["-r"], ["-N"], ["-s", "sh -c", "-N", "-j", "3"], ["-s", "sh -c", "-r"]]
+    flag_ok = []
+    for fl in combos:
+        fs = cli_session(fsrc, [["-q"] + fl + ["a.txt"], ["-q", "verify"] + [x for x in fl if x != "-N"] + ["a.txt"], ["-q"] + fl + ["-n", "a.txt"],
+                                ["-q", "verify"] + [x for x in fl if x != "-N"] + ["-n", "a.txt"], ["-q", "-n"] + fl + ["a.txt"], ["-q", "verify"] + [x for x in fl if x != "-N"] + ["a.txt"]])
+        want = [(0, b"line1\nhi\nlast line\n"), (0, b"line1\nhi\nlast line\n"), (0, b"line1\nhi\nlast line"), (0, b"line1\nhi\nlast line"), (0, b"line1\nhi\nlast line"), (1, b"line1\nhi\nlast line")]
+        ok = all(rc == erc and tree.get("a.txt") == eout for (rc, tree, _), (erc, eout) in zip(fs, want))
+        flag_ok.append(ok)
+        if not ok and len(violations) < 5:
+            violations.append({"found": True, "replay": {"property": "C13", "what": "with the other build flags %r the binary's -n does not remove exactly the final line ending (or verify disagrees with the build)" % (fl,),
+                               "steps": "build; verify; build -n; verify -n; -n build; verify", "files": fsrc,
+                               "observed": [(rc, short(tree.get("a.txt"))) for rc, tree, _ in fs], "expected": [(e, short(o)) for e, o in want]}})
+    cov = {"evaluations": 2 * n + 2 * len(tl) + len(hist) + len(ses) + 6 * len(combos) + 3 * len(depp), "distinct_nontrivial": len(nontriv), "needed_history_cases": len(hist), "dependency_reach_runs": 3 * len(depp), "cli_flag_steps_ok": cli_ok, "cli_flag_combinations_ok": flag_ok,
            "rule": "every generated project built twice (option on / off), same controlled schedule; relation checked on the implementation's bytes: identical or on = off + line ending, temp files identical; "
                    "plus sources ending in an ordinary text line; distinct_nontrivial = distinct (on, off) output pairs",
            "relation_distribution": dict(rel), "text_line_ending_cases": ntl, "input_distribution": dist_of(base),
@@ -1892,13 +1908,34 @@ def check_C08(tier_, sd, consts_ok, consts_detail):
     for b in kbad[:3]:
         violations.append({"found": True, "replay": {"property": "C08", "what": "a build interrupted by SIGKILL was not repaired by building again", "detail": b,
                            "how": "tools/checks.py crash_histories: txtpp -q -r . killed after 0-60 ms, then txtpp -q -r . (or -N); tree compared with an uninterrupted build"}})
-    cov = {"evaluations": len(steps) + ngen + len(failing) + len(late) + killed + early, "distinct_nontrivial": len(nontriv),
+    # the binary, inputs named in every accepted way (seed C08-8: an input given by its OUTPUT name resolved the second source
+    # spelling `stem.txtpp.ext` only when the output already existed): exit code and final tree must not depend on what lies at the output
+    named_runs = 0
+    nsrc = {"page.txtpp.md": "p1\n-TXTPP#run echo built\np2\n", "a.txt.txtpp": "a1\n", "sub/q.txtpp.rs": "q\n", "sub/b.md.txtpp": "b\n"}
+    outs_ = ["page.md", "a.txt", "sub/q.rs", "sub/b.md"]
+    pres = {"absent": None, "stale": b"OLD\n", "junk": b"\xff\xfe\x00", "exact-prefix": b"p1\n", "empty": b""}
+    for inputs in (["page.md"], ["a.txt"], ["page.txtpp.md"], ["sub/q.rs", "sub/b.md"], ["page.md", "a.txt", "sub"], ["."], ["-r", "."]):
+        for fl in ([], ["-N"]):
+            seen = {}
+            for pn, pv in pres.items():
+                files = dict(nsrc)
+                if pv is not None:
+                    for o in outs_: files[o] = pv
+                rc, tree, _ = cli_session(files, [["-q"] + fl + inputs], dirs=["sub"])[0]
+                named_runs += 1
+                seen[pn] = (rc, tuple(sorted((o, tree.get(o)) for o in outs_ if tree.get(o) is not None and tree.get(o) != pv)))
+            ref_ = seen["absent"]
+            for pn, v in seen.items():
+                if v != ref_ and len(violations) < 5:
+                    violations.append({"found": True, "replay": {"property": "C08", "what": "the binary's verdict / generated files for inputs %r (flags %r) depend on what lay at the output paths: pre-state %s vs absent" % (inputs, fl, pn),
+                                       "files": nsrc, "prestate_bytes": repr(pres[pn]), "observed": repr(v)[:400], "from_absent": repr(ref_)[:400]}})
+    cov = {"evaluations": len(steps) + ngen + len(failing) + len(late) + killed + early + named_runs, "distinct_nontrivial": len(nontriv),
            "sigkill_histories": {"killed_mid_build": killed, "finished_before_the_kill": early, "not_repaired": len(kbad)},
            "rule": "for generated projects (successful and failing) the build / needed-build is repeated from pre-states with, at every generated path independently: absent, exact content, a proper prefix cut at a random byte, extended content, "
                    "empty, stale text, non-UTF-8 bytes, half a multi-byte character, 300 bytes; and from the built tree itself; verdict and (on success) the whole tree must equal the build from the clean tree; "
                    "plus SIGKILL histories on the real binary (killed 0-60 ms into a build with 1-4 threads, then build or needed-build again, tree compared with an uninterrupted build); "
                    "distinct_nontrivial = distinct (project, pre-state shape)",
-           "projects": len(base), "late_read_projects": len(late), "prestate_kinds": dict(kinds), "samples": [steps[0].what, steps[1].what]}
+           "projects": len(base), "late_read_projects": len(late), "cli_named_input_runs": named_runs, "prestate_kinds": dict(kinds), "samples": [steps[0].what, steps[1].what]}
     xcheck(cov, violations, "C08", steps, om)
     return {"coverage": cov, "violations": violations}
 
